@@ -59,6 +59,8 @@ enum Consumer {
 }
 
 static CONSUMER: Mutex<Option<Consumer>> = Mutex::new(None);
+/// batches (`Pending`) handed out by `pending()` during the setup, each drained later by its own thread
+static BATCHES: Mutex<Vec<Option<signal_hook::iterator::backend::Pending<SignalOnly>>>> = Mutex::new(Vec::new());
 static HANDLE: Mutex<Option<Handle>> = Mutex::new(None);
 
 fn do_op(text: &str) {
@@ -111,6 +113,17 @@ fn do_op(text: &str) {
             *CONSUMER.lock().unwrap() = Some(c);
             push_log("ret done".into());
         }
+        ["drain", k] => {
+            // a batch obtained earlier (it owns a reference to the slots, not to the instance) is drained
+            // here, possibly while another batch of the same instance is drained elsewhere
+            let b = BATCHES.lock().unwrap()[k.parse::<usize>().unwrap()].take();
+            if let Some(b) = b {
+                for sig in b {
+                    push_log(format!("yield {}", sig));
+                }
+            }
+            push_log("ret done".into());
+        }
         ["poll"] => {
             let mut c = CONSUMER.lock().unwrap().take().unwrap();
             if let Consumer::B(ref mut it) = c {
@@ -155,11 +168,13 @@ pub fn main() -> i32 {
     let mut seed: u64 = 1;
     let mut replay: Option<Vec<usize>> = None;
     let mut maxsteps = 20000usize;
+    let mut batches = 0usize;
     for l in read_lines() {
         let w: Vec<&str> = l.split_whitespace().collect();
         match w.as_slice() {
             ["setup", "watch", rest @ ..] => watch.extend(rest.iter().map(|x| x.parse::<i32>().unwrap())),
             ["setup", "fill"] => fill = true,
+            ["setup", "batches", n] => batches = n.parse().unwrap(),
             ["setup", "style", s] => style = s.to_string(),
             ["seed", n] => seed = n.parse().unwrap(),
             ["maxsteps", n] => maxsteps = n.parse().unwrap(),
@@ -219,6 +234,10 @@ pub fn main() -> i32 {
     // an unscheduled scan of the still empty instance, only to learn the slot base
     for _ in d.pending() {}
     LEARN.store(false, std::sync::atomic::Ordering::SeqCst);
+    for _ in 0..batches {
+        // `pending()` on the still empty pipe (one recv answering EAGAIN), unscheduled
+        BATCHES.lock().unwrap().push(Some(d.pending()));
+    }
     let consumer = if style == "B" { Consumer::B(OwningSignalIterator::new(d)) } else { Consumer::A(d) };
     if fill {
         loop {
